@@ -89,6 +89,13 @@ func (P *Program) loadContractDirectives() {
 					key := f[1] + "#" + f[2]
 					P.loopInvs[key] = append(P.loopInvs[key], &LoopInv{Name: name, Fn: w})
 				}
+			case "step":
+				// relation between the state at the loop head and the state at the end of
+				// the same iteration; must hold for every iteration
+				if len(f) >= 3 {
+					key := f[1] + "#" + f[2]
+					P.loopSteps[key] = append(P.loopSteps[key], &LoopInv{Name: name, Fn: w})
+				}
 			}
 		}
 	}
@@ -347,4 +354,82 @@ func (ex *Exec) checkInv(f *Frame, act *loopAct, inv *LoopInv, class string, rea
 func (ex *Exec) assumeInv(f *Frame, act *loopAct, inv *LoopInv, reach *Term, get func(*ssa.Phi) Value) {
 	c := ex.evalInv(f, act, inv, reach, get, true)
 	ex.assumeGlobal(Forall(Implies(reach, c)))
+}
+
+// stepHeadArgs evaluates, at the loop head, the `_h` parameters of a step predicate:
+// <loopvar>_h is the loop variable's value at the head; <ptrparam>_h (typed as the
+// pointee) is the pointee of the enclosing function's pointer parameter at the head.
+func (ex *Exec) stepHeadArgs(f *Frame, act *loopAct, st *LoopInv) map[string]Value {
+	out := map[string]Value{}
+	for _, p := range st.Fn.Params {
+		name := p.Name()
+		if !strings.HasSuffix(name, "_h") {
+			continue
+		}
+		base := strings.TrimSuffix(name, "_h")
+		found := false
+		for phi, hv := range act.headVals {
+			if phi.Comment == base {
+				out[name], found = hv, true
+				break
+			}
+		}
+		if found {
+			continue
+		}
+		for _, fp := range f.fn.Params {
+			if fp.Name() != base {
+				continue
+			}
+			v := f.vals[fp]
+			if pt, ok := fp.Type().Underlying().(*types.Pointer); ok && types.Identical(pt.Elem(), p.Type()) {
+				out[name], found = ex.loadPtr(ex.ptr(v)), true
+			} else if types.Identical(fp.Type(), p.Type()) {
+				out[name], found = v, true
+			}
+		}
+		if !found {
+			ex.unsupported(fmt.Sprintf("step %s: cannot bind %s", st.Name, name))
+		}
+	}
+	return out
+}
+
+func (ex *Exec) checkStep(f *Frame, act *loopAct, st *LoopInv, headArgs map[string]Value, reach *Term, getNext func(*ssa.Phi) Value) {
+	var args []Value
+	for _, p := range st.Fn.Params {
+		name := p.Name()
+		if v, ok := headArgs[name]; ok {
+			args = append(args, v)
+			continue
+		}
+		var v Value
+		found := false
+		for phi := range act.headVals {
+			if phi.Comment == name {
+				v, found = getNext(phi), true
+				break
+			}
+		}
+		if !found {
+			for _, fp := range f.fn.Params {
+				if fp.Name() == name {
+					v, found = f.vals[fp], true
+				}
+			}
+		}
+		if !found {
+			ex.unsupported(fmt.Sprintf("step %s: cannot bind %s", st.Name, name))
+			return
+		}
+		args = append(args, v)
+	}
+	ex.specDepth++
+	v, _ := ex.callFn(st.Fn, args, reach)
+	ex.specDepth--
+	t, _ := v.(*Term)
+	if t == nil {
+		return
+	}
+	ex.oblige("step", act.key+":"+st.Name, reach, t)
 }
